@@ -314,7 +314,7 @@ def rf7g(run):
 import re as _re
 
 
-def rf7e(run, units=('mir', 'gen')):
+def rf7e(run, units=('mir', 'gen'), expect=3):
     rule = 'RF7e'
     run.rule(rule, 'every switch that maps a narrow integer MIR type to an extension opcode (result extension in make_one_ret, argument '
                    'extension in simplify_func, the target\'s get_ext_code) maps I<n> to EXT<n> and U<n> to UEXT<n>')
@@ -347,6 +347,71 @@ def rf7e(run, units=('mir', 'gen')):
                     if not ok:
                         run.violation(rule, f, 'extension of %s' % t, '%s extends a value of type %s with %s; the type\'s width and signedness '
                                       'demand %s' % (f.name, t, got or 'nothing', want), line=sw['l'])
-    if n < 3:
-        run.analysis_broken(rule, 'only %d type->extension maps found (make_one_ret, simplify_func, get_ext_code expected)' % n)
+    if n < expect:
+        run.analysis_broken(rule, 'only %d type->extension maps found (%d expected: make_one_ret, simplify_func, get_ext_code, …)' % (n, expect))
+    return n
+
+
+# ---------------------------------------------------------------------------------------------
+# RF7f type -> C narrowing maps
+# ---------------------------------------------------------------------------------------------
+
+def rf7f(run, units=('mir',), expect=4):
+    rule = 'RF7f'
+    run.rule(rule, 'every switch that narrows or widens a value according to an integer MIR type (FFI argument narrowing and result '
+                   'widening in the interpreter, C-argument decoding, expr-data stores) casts through the C type of that width, and of '
+                   'that signedness whenever the destination is wider than the cast')
+    n = 0
+    for u in units:
+        tu = run.tu(u)
+        for f in tu.func_list:
+            for sw in [x for x in f.walk() if x['k'] == 'SwitchStmt']:
+                c = F.strip(sw['c'][0], explicit=False)
+                try:
+                    regs = R.switch_regions(f, sw)
+                except F.AnalysisBroken:
+                    continue
+                entries = []
+                for r in regs:
+                    tnames = [nm for (nm, lo, hi) in r['cases'] if nm and _re.fullmatch(r'MIR_T_[IU](8|16|32|64)', nm)]
+                    if not tnames:
+                        continue
+                    asg = [x for x in R.region_nodes(r['stmts']) if x['k'] == 'BinaryOperator' and x['op'] == '=']
+                    if not asg:
+                        continue
+                    rhs = asg[0]['c'][1]
+                    cast = None
+                    x = rhs
+                    while x is not None and x['k'] in F.CASTS:
+                        if x['k'] == 'CStyleCastExpr':
+                            cast = tu.type(x)
+                            break
+                        x = x['c'][0]
+                    if cast is None or cast.kind != 'int':
+                        continue
+                    dst = tu.type(F.strip(asg[0]['c'][0]))
+                    entries.append((tnames, cast, dst, asg[0]))
+                if len(entries) < 4:
+                    continue
+                n += 1
+                run.functions_analysed.add((u, f.name))
+                for tnames, cast, dst, node in entries:
+                    for t in tnames:
+                        w = int(t[7:])
+                        signed = t[6] == 'I'
+                        okw = cast.w == w
+                        need_sign = dst is not None and dst.w is not None and dst.w > cast.w
+                        oks = (not need_sign) or bool(cast.signed) == signed
+                        ok = okw and oks
+                        run.ob(rule, (u, f.name, sw['l'], t), ok, {'site': '%s:%d %s' % (f.relfile(), node['l'], f.name), 'type': t,
+                                                                   'cast': cast.s, 'destination': dst.s if dst else '?',
+                                                                   'signedness matters': need_sign})
+                        if not ok:
+                            run.violation(rule, f, 'conversion for %s' % t,
+                                          '%s converts a %s value through (%s) into a %s: %s' %
+                                          (f.name, t, cast.s, dst.s if dst else '?',
+                                           'the width differs' if not okw else 'the value is %s-extended but the type is %s'
+                                           % ('sign' if cast.signed else 'zero', 'signed' if signed else 'unsigned')), line=node['l'])
+    if n < expect:
+        run.analysis_broken(rule, 'only %d type->C conversion switches found, %d expected' % (n, expect))
     return n
